@@ -227,9 +227,10 @@ let spec input obs =
                   tbl := t'
                 end else if !tbl <> [] then begin
                   (* rows left behind by a refused import *)
-                  if res = "ok" && not (EI.table_matches_file c.hashf t' (coq_file !fs) c.ckh c.ckhash)
-                  then fail "second-start-accepts-leftovers";
-                  if res = "ok" && EI.table_matches_file c.hashf t' (coq_file !fs) c.ckh c.ckhash then tainted := false;
+                  if res = "ok" then begin
+                    if EI.table_matches_file c.hashf t' (coq_file !fs) c.ckh c.ckhash then tainted := false
+                    else fail "second-start-accepts-leftovers"
+                  end;
                   tbl := t'
                 end else begin
                   (* empty database *)
